@@ -560,6 +560,15 @@ func (n Nilness) String() string { return [...]string{"maybe-nil", "nil", "non-n
 // concrete struct types, results of constructors known to be non-nil, phis
 // (join), and dominating nil-tests on v.
 func NilnessAt(v ssa.Value, blk *ssa.BasicBlock) Nilness {
+	// what the path being explored has established about v (pathfacts.go) takes precedence
+	if n, ok := PathNilness(v); ok {
+		return n
+	}
+	return nilnessAt(v, blk, map[ssa.Value]bool{})
+}
+
+// nilnessNoPath is NilnessAt without consulting the facts of the path being explored.
+func nilnessNoPath(v ssa.Value, blk *ssa.BasicBlock) Nilness {
 	return nilnessAt(v, blk, map[ssa.Value]bool{})
 }
 
